@@ -20,6 +20,7 @@ import (
 
 var bvLitRe = regexp.MustCompile(`^\(_ bv(\d+) \d+\)$`)
 var negRe = regexp.MustCompile(`^\(- (\d+)\)$`)
+var supportRe = regexp.MustCompile(`VERIF-REPLAY-SUPPORT: (\w+)`)
 var uEsc = regexp.MustCompile(`\\u\{([0-9a-fA-F]+)\}`)
 
 // goLiteral converts an SMT model value to Go source text.
@@ -95,7 +96,14 @@ func tryReplay(fr *FuncResult, o *Oblig, model map[string]string) (bool, string,
 	dir := scratchDir()
 	tf := filepath.Join(dir, fmt.Sprintf("replay_%d_test.go", time.Now().UnixNano()))
 	_ = os.WriteFile(tf, []byte(test), 0o644)
-	ov := map[string]map[string]string{"Replace": {filepath.Join(pkgDir, "zz_verif_replay_test.go"): tf}}
+	repl := map[string]string{filepath.Join(pkgDir, "zz_verif_replay_test.go"): tf}
+	for _, m := range supportRe.FindAllStringSubmatch(test, -1) {
+		sf := filepath.Join(verifRoot, "replay", "support", m[1]+"_test.go")
+		if _, err := os.Stat(sf); err == nil {
+			repl[filepath.Join(pkgDir, "zz_verif_support_"+m[1]+"_test.go")] = sf
+		}
+	}
+	ov := map[string]map[string]string{"Replace": repl}
 	ovData, _ := json.Marshal(ov)
 	of := tf + ".overlay.json"
 	_ = os.WriteFile(of, ovData, 0o644)
@@ -103,7 +111,16 @@ func tryReplay(fr *FuncResult, o *Oblig, model map[string]string) (bool, string,
 	defer os.Remove(of)
 	ctx, cancel := context.WithTimeout(context.Background(), 180*time.Second)
 	defer cancel()
-	cmd := exec.CommandContext(ctx, "bash", "-c", fmt.Sprintf("ulimit -v 8000000; cd %s && go test -overlay %s -vet=off -count=1 -timeout 60s -run '^TestVerifReplay$' ./%s", mod, of, strings.TrimPrefix(rel, filepath.Base(mod)+"/")))
+	// a scratch go.mod/go.sum so that nothing under /repo can be rewritten by the go command
+	mf := filepath.Join(dir, fmt.Sprintf("mod%d", time.Now().UnixNano()))
+	_ = os.MkdirAll(mf, 0o755)
+	defer os.RemoveAll(mf)
+	for _, n := range []string{"go.mod", "go.sum"} {
+		if b, err := os.ReadFile(filepath.Join(mod, n)); err == nil {
+			_ = os.WriteFile(filepath.Join(mf, n), b, 0o644)
+		}
+	}
+	cmd := exec.CommandContext(ctx, "bash", "-c", fmt.Sprintf("ulimit -v 16000000; cd %s && go test -modfile=%s -overlay %s -vet=off -count=1 -timeout 90s -run '^TestVerifReplay$' ./%s", mod, filepath.Join(mf, "go.mod"), of, strings.TrimPrefix(rel, filepath.Base(mod)+"/")))
 	cmd.Env = append(os.Environ(), "GOFLAGS=-mod=mod", "GOPROXY=off", "GOSUMDB=off", "GOTOOLCHAIN=local")
 	var out bytes.Buffer
 	cmd.Stdout = &out
